@@ -197,6 +197,13 @@ Definition sched_handover : list sch :=
 Definition sched_detached : list sch :=
   [STask; STask; SProc 0; SProc 1; SProc 1; STask; STask; STask; STask; SOther 0; SProc 1].
 
+(* ---------------------------------------------------------------- the tool runner's own throttle
+   Every tool call of every session takes one of the runner's [slots] permits for as long as it runs
+   (rip-tools runtime.rs ToolRunner::run), the mutating call in progress included.  A read-only call needs no
+   workspace permit; it runs at once iff a slot is free. *)
+Definition runner_admits (slots inside : N) : bool := N.ltb inside slots.
+Definition runner_wf (slots : N) : bool := N.leb 2 slots.
+
 (* ---------------------------------------------------------------- correspondence (T2)
    What the harness observed for one command that leaves a child behind: the site, which streams the child
    holds when it writes, and the lock / process-tree events in observed order: (code, actor) with
@@ -303,16 +310,22 @@ Definition good_ev (e : ev) : bool :=
   | _ => true
   end.
 
-(* the waiter of a site: 0 pipes task, 1 pty task, 2 the shell tool *)
+(* the waiter of a site: 0 pipes task, 1 pty task, 2 the shell tool, 3 the shell tool called with `timeout_ms`:
+   the runner abandons the call when the time is up, whatever the streams - the bounded waiter (what the code
+   does: kill_on_drop kills the shell only; open finding S30); there the model predicts the attached write under
+   somebody else's permit, so only the replay is compared *)
+Definition waiter_of_site (wpipes wpty wtool : list top) (site : N) : list top :=
+  match site with 0 => wpipes | 1 => wpty | 2 => wtool | _ => bounded_waiter end.
+
 Definition check_tree_with (wpipes wpty wtool : list top) (c : tcase) : bool :=
-  let w := match t_site c with 0 => wpipes | 1 => wpty | _ => wtool end in
+  let w := waiter_of_site wpipes wpty wtool (t_site c) in
   match tree_replay (t_me c) (tinit w (procs_of_case c) 8) (t_events c) 0 with
-  | (Some st, _) => forallb good_ev (ttrace st)
+  | (Some st, _) => N.leb 3 (t_site c) || forallb good_ev (ttrace st)
   | (None, _) => false
   end.
 
 Definition tree_obs_with (wpipes wpty wtool : list top) (c : tcase) : list N :=
-  let w := match t_site c with 0 => wpipes | 1 => wpty | _ => wtool end in
+  let w := waiter_of_site wpipes wpty wtool (t_site c) in
   match tree_replay (t_me c) (tinit w (procs_of_case c) 8) (t_events c) 0 with
   | (Some st, k) => [0; k; if forallb good_ev (ttrace st) then 1 else 0]
   | (None, k) => [1; k]
